@@ -106,12 +106,32 @@ def rule_framing(ctx: Ctx):
         loops = [e for e in p.trace if e.k == "loopiter"]
         if loops:
             it = loops[0].iter
-            ok = it[0] == "sub" and it[1] == lines and it[2][0] == "slice" and it[2][1] in (None, ("const", 0)) and it[2][2] == ("const", -1)
+            def all_but_last(hi):
+                # lines[:-1]  /  lines[0:len(lines) - 1]
+                if hi == ("const", -1):
+                    return True
+                f2 = linform(hi) if hi is not None else None
+                if f2 is None or f2[1] != -1 or len(f2[0]) != 1:
+                    return False
+                (atom2, co2), = f2[0].items()
+                return co2 == 1 and atom2[0] == "call" and atom2[1] == ("builtin", "len") and atom2[2][0] == lines
+            ok = it[0] == "sub" and it[1] == lines and it[2][0] == "slice" and it[2][1] in (None, ("const", 0)) and all_but_last(it[2][2])
+            index_loop = False
+            if not ok and it[0] == "call" and it[1] == ("builtin", "range") and len(it[2]) == 1:
+                # for index in range(len(lines) - 1): emit lines[index]
+                f_ = linform(it[2][0])
+                if f_ is not None and f_[1] == -1 and len(f_[0]) == 1:
+                    (atom, co_), = f_[0].items()
+                    index_loop = ok = co_ == 1 and atom[0] == "call" and atom[1] == ("builtin", "len") and atom[2][0] == lines
             if not ok and it == lines:
                 # the last piece was popped off before the loop
                 ok = bool(pops) and p.trace.index(pops[0]) < p.trace.index(loops[0])
             ems = [m for m in emissions(p) if m.method == "on_next"]
-            ok = ok and len(ems) == 1 and ems[0].eff.arg[0] == "loopvar"
+            if index_loop:
+                a_ = ems[0].eff.arg if len(ems) == 1 else None
+                ok = ok and a_ is not None and a_[0] == "sub" and a_[1] == lines and a_[2] == loops[0].var
+            else:
+                ok = ok and len(ems) == 1 and ems[0].eff.arg[0] == "loopvar"
             r.ob(ok, lambda: mk_finding("FR-1", spec, None, {}, p, "every piece but the last must be emitted once, in order; loop over %s emits %s" % (show(it), summary(p)), extra="emit"))
     r.ob(wdelim is not None and wdelim == rdelim, lambda: Finding(
         "FR-1", "%s{delimiter}" % L, L + ":1", "frame writes the delimiter %r but unframe splits on %r" % (wdelim, rdelim)))
@@ -260,8 +280,22 @@ def rule_framing(ctx: Ctx):
             if not ps or len(others) != 1:
                 continue
             # what follows decides whether this outcome means 'enough bytes': the loop goes on / the frame is emitted
-            nxt = next((x for x in p.trace[pos + 1:] if x.k in ("loopiter", "loopexit", "emit")), None)
-            enough = nxt is not None and (nxt.k in ("loopiter", "emit") or (nxt.k == "loopexit" and nxt.d.get("cut")))
+            # the outcome means 'enough bytes' when the iteration goes on to do what needs them: parse the size
+            # (prefix test) or emit the payload (payload test) before the loop is left
+            start_ = pos + 1
+            nx = p.trace[start_] if start_ < len(p.trace) else None
+            cut_ = nx is not None and nx.k == "loopexit" and nx.d.get("cut")
+            if nx is not None and nx.k == "loopiter":
+                start_ += 1          # the test is the loop condition: its iteration starts right after it
+            end_ = next((k_ for k_ in range(start_, len(p.trace)) if p.trace[k_].k in ("loopiter", "loopexit")), len(p.trace))
+            seg = p.trace[start_:end_]
+            is_payload_test = bool(sz) and (-co0[ps[0]] * (1 if co0[others[0]] > 0 else -1)) == len(sz)
+            if cut_:
+                enough = True        # the enumeration stops here, the loop itself would go on
+            elif is_payload_test:
+                enough = any(x.k == "emit" and x.method == "on_next" for x in seg)
+            else:
+                enough = any(x.k == "call" and x.d.get("method") == "from_bytes" for x in seg)
             op, co, c = normalise_cmp(e.test, e.outcome)
             co = dict(co)
             ln = others[0]
